@@ -1,5 +1,5 @@
 (* Properties/C04.v -- names resolve through scopes, module, imports, context, builtins, UNDEFINED *)
-From MakoV Require Import Lib.Str Gen.Reserved Model.Scope Proofs.ScopeProofs.
+From MakoV Require Import Lib.Str Gen.Reserved Model.Scope Model.Idents Proofs.ScopeProofs Proofs.IdentsProofs.
 Open Scope N_scope.
 
 Theorem C04_resolution_order : forall V (e : env V) x,
@@ -59,6 +59,36 @@ Theorem C04_conflict_iff : forall enable_loop names,
   conflict enable_loop names = true <-> exists x, In x names /\ In x (reserved enable_loop).
 Proof. exact conflict_iff. Qed.
 Print Assumptions C04_conflict_iff.
+
+(* ---- which names a generated function looks up (codegen._Identifiers) ----------------------------------- *)
+(* for every scope and every sequence of nodes: every name read in it (other than context) is declared by
+   an enclosing scope, or is assigned / an argument in this one, or gets a line at the top of the function *)
+Theorem C04_read_names_are_bound_or_hoisted : forall nodes s x,
+  In x (flat_map (reads_of idents_fuel) nodes) -> x <> n_context ->
+  let s' := fold_left (visit_child idents_fuel) nodes s in
+  In x (Idents.declared s') \/ In x (locally_declared s') \/ In x (argument_declared s') \/ In x (to_write s').
+Proof. exact read_names_are_bound_or_hoisted. Qed.
+Print Assumptions C04_read_names_are_bound_or_hoisted.
+
+(* what a nested scope takes as declared is exactly what the enclosing function inherits, binds or hoists *)
+Theorem C04_nested_scope_inherits_what_the_function_binds : forall parent x,
+  In x (Idents.declared (branch_init parent true)) <->
+  In x (Idents.declared parent) \/ In x (to_write parent) \/ In x (locally_declared parent) \/ In x (argument_declared parent).
+Proof. exact nested_scope_inherits_what_the_function_binds. Qed.
+Print Assumptions C04_nested_scope_inherits_what_the_function_binds.
+
+Theorem C04_toplevel_scope_does_not_inherit_reads : forall parent x,
+  In x (Idents.declared (branch_init parent false)) <->
+  In x (Idents.declared parent) \/ In x (closuredefs parent) \/ In x (locally_declared parent) \/ In x (argument_declared parent).
+Proof. exact toplevel_scope_does_not_inherit_reads. Qed.
+Print Assumptions C04_toplevel_scope_does_not_inherit_reads.
+
+Example C04_idents_nonvacuous :
+  let body := branch_template {| Idents.declared := [9]; undeclared := []; locally_declared := []; locally_assigned := []; argument_declared := [];
+                                 topleveldefs := []; closuredefs := [] |}
+                [TPage [1] [] [1]; TCode [2] [3]; TDef true 5 [4] [2] [TCheck [3; 4; 6] []]; TCheck [3; 5; 7; 9] []] in
+  to_write body = [7; 5; 2] /\ locally_declared body = [3; 1] /\ argument_declared body = [1] /\ topleveldefs body = [5].
+Proof. vm_compute. repeat split. Qed.
 
 Example C04_nonvacuous :
   run_body (new_context [(1, 10); (2, 20)] [(9, 90)]) [(2, 21)] [(3, 30)]
